@@ -198,14 +198,78 @@ def drop_label(spec, j):
         del spec["labels"][j]
 
 
+# ---- non-finite entries that are not NaN (stream:nonfinite) and weights of the right size but another shape (stream:wshape)
+# A value of a 'nonfinite' case is a float, None (NaN), "inf" or "-inf" (plain JSON). HUGE + HUGE overflows to inf.
+ENABLE_NONFINITE = True     # the whole stream:nonfinite
+ENABLE_WSHAPE = True        # the whole stream:wshape
+# The library compares the shape of the weights with the shape of the NaN mask, and there is a mask only when dropna=True: with
+# dropna=False it flattens data and weights, so weights of the right size and ANY shape are taken (also the transposed weights
+# of a 2-D data array, paired in flattened order). "wrongly shaped inputs are refused" read strictly wants these refused as well;
+# the unchanged library does not, so the clause is off (the other clauses -- every container does what the numpy array does, an
+# accepted call with weights that have one non-unit axis pairs by position -- hold and are checked with dropna=False too).
+PIN_REFUSAL_WITHOUT_DROPNA = False
+HUGE = 1.5e308
+NONFINITE_FLAVOURS = ("both", "pinf", "ninf", "inf_nan", "huge", "same2", "all", "huge_only")
+
+
+def dec_value(v):
+    """a value of a case as a float"""
+    return float("nan") if v is None else float(v)
+
+
+def exact_value(v):
+    """a value of a case for exact comparison with bin edges: None (NaN), a Fraction, or an infinite float (Fraction compares
+    correctly with those)"""
+    if v is None:
+        return None
+    if isinstance(v, str):
+        return float(v)
+    return Fraction(v)
+
+
+def is_infinite(v):
+    return isinstance(v, str)
+
+
+def light1(h):
+    """the compared fields of a 1-D histogram (no statistics: sums of infinities are NaN and not the property's business)"""
+    bins = np.asarray(h.bins).reshape(-1, 2)
+    return {"bins": [[rs(l), rs(r)] for l, r in bins], "freq": [nrs(x) for x in h.frequencies], "err2": [nrs(x) for x in h.errors2],
+            "under": nrs(h.underflow), "over": nrs(h.overflow), "dtype": str(h.dtype), "axis_name": str(h.axis_name)}
+
+
+def lightn(h):
+    bins = [np.asarray(b).reshape(-1, 2) for b in h.bins]
+    f = np.asarray(h.frequencies)
+    return {"bins": [[[rs(l), rs(r)] for l, r in b] for b in bins], "freq": [nrs(v) for v in f.ravel()],
+            "err2": [nrs(v) for v in np.asarray(h.errors2).ravel()], "missed": nrs(h.missed), "shape": [int(s) for s in f.shape],
+            "dtype": str(h.dtype), "names": [str(n) for n in h.axis_names]}
+
+
+def light_any(h):
+    return light1(h) if getattr(h, "ndim", 0) == 1 else lightn(h)
+
+
+def factor_pair(n):
+    """(a, b) with a * b == n and a, b > 1, or None"""
+    for a in range(2, n):
+        if n % a == 0:
+            return a, n // a
+    return None
+
+
 class C17:
     ID = "C17"
-    # the cases up to N_BASE[tier] are the older streams, exactly as they were; the cases after them are the 'labelled' stream
+    # the cases up to N_BASE[tier] are the older streams, exactly as they were; the cases after them are the 'labelled' stream ...
     N_BASE = {"quick": 170, "thorough": 2500, "search": 120}
     N_LABELLED = {"quick": 24, "thorough": 350, "search": 20}
-    N_QUICK = N_BASE["quick"] + (N_LABELLED["quick"] if ENABLE_LABELLED else 0)
-    N_THOROUGH = N_BASE["thorough"] + (N_LABELLED["thorough"] if ENABLE_LABELLED else 0)
-    N_SEARCH = N_BASE["search"] + (N_LABELLED["search"] if ENABLE_LABELLED else 0)
+    # ... then the 'nonfinite' stream, then the 'wshape' stream (a further index cycles through the three in these proportions)
+    N_NONFINITE = {"quick": 24, "thorough": 320, "search": 24}
+    N_WSHAPE = {"quick": 16, "thorough": 220, "search": 16}
+    _LATE = (("labelled", N_LABELLED, ENABLE_LABELLED), ("nonfinite", N_NONFINITE, ENABLE_NONFINITE), ("wshape", N_WSHAPE, ENABLE_WSHAPE))
+    N_QUICK = N_BASE["quick"] + sum(c["quick"] for _, c, on in _LATE if on)
+    N_THOROUGH = N_BASE["thorough"] + sum(c["thorough"] for _, c, on in _LATE if on)
+    N_SEARCH = N_BASE["search"] + sum(c["search"] for _, c, on in _LATE if on)
     RULE = ("one numeric data set (with / without NaN, weights absent / int / float, 1-D or (n, d) with d = 2..3) over explicit bins, "
             "entered as numpy array (reference), list, tuple, (name, values) tuple, iterator, 2-D / 3-D C- and Fortran-ordered arrays, "
             "pandas Series (named) and .physt accessor (h1 / histogram / cut), pandas DataFrame and accessors (h1 / h2 / histogram, with and "
@@ -237,14 +301,38 @@ class C17:
             "or filtered while the weights are numbered afresh, two coordinate Series with different labels to h2, polars Series / frames "
             "and dask arrays with labelled pandas weights, xarray DataArrays with coordinates (data and weights; only recorded whether "
             "taken): every spelling = the call on series.to_numpy() / weights.to_numpy() (paired BY POSITION), and that reference = the "
-            "Fraction sums of the positional (row, weight) pairs. non-trivial = at least one entry inside a bin; distinct = case hash")
+            "Fraction sums of the positional (row, weight) pairs; then 24 / 320 cases of non-finite entries that are not NaN "
+            "(stream:nonfinite): explicit finite bins, d = 1..3, n = 4..12 rows of which 1..3 hold +inf, -inf, both signs in one row, two "
+            "equal signs, only infinities, an infinity beside a NaN, or finite values of 1e308..1.7e308 whose sum overflows (eight "
+            "flavours, each met in two dimensions with the default dropna on every seed), NaN elsewhere or not, dropna on / off, weights "
+            "= distinct powers of two (int64 / float64) or none, as numpy array, list, tuple, iterator, 2-D array (C, Fortran, transposed "
+            "view), nested list / tuple, pandas Series / frames and accessors, polars Series / frames and namespaces, pandas / polars "
+            "weights, dask arrays, (name, values); h, h2 of two columns of every carrier (arrays, lists, tuples, Series, 2-D arrays), h3, "
+            "frame accessors with column selections: every spelling = the numpy call, and the numpy call (also on the two selected "
+            "columns) = the rows taken one by one: kept iff no NaN, cell by exact comparison with the edges, errors2 and underflow / "
+            "overflow (1-D) / missed (N-d) exact; then 16 / 220 cases of weights of the right size and another shape (stream:wshape): an r x "
+            "c table entered flat (numpy, list, tuple, iterator, pandas / polars Series and accessors, dask) and as the table (C / "
+            "Fortran array, nested list / tuple, iterator of rows, list of arrays) to h1, or n rows (d = 2, 3) to h / h2 / h3 / frames / "
+            "accessors, with weights (array or nested list) shaped as the data, as column (n, 1), row (1, n), (n, 1, 1), another "
+            "factorisation (a, b), flat / transposed for the table, 0-d for one value; NaN or not, dropna on / off: weights shaped like the "
+            "data are accepted (exact positional sums); with dropna=True every other shape is refused; with dropna=False (where the "
+            "unchanged library flattens: PIN_REFUSAL_WITHOUT_DROPNA) an accepted shape with one non-unit axis gives the histogram of the "
+            "proper weights; for each shape every carrier is refused / accepted as the numpy call is, with the same histogram. "
+            "non-trivial = at least one entry inside a bin; distinct = case hash")
     EXTRA_TRUST = ["pandas, polars, dask and xarray conversions are exercised, not modelled"]
     ASSUMPTIONS = ["the reference is physt's own result on the equivalent numpy array, itself tied to the model by C01 / C02"]
 
     # ------------------------------------------------------------------ generators
     def gen_case(self, rng, k, tier):
-        if ENABLE_LABELLED and k >= self.N_BASE.get(tier, 10**9):
-            return self.gen_labelled(rng, k - self.N_BASE[tier])
+        late = [(name, cnt[tier]) for name, cnt, on in self._LATE if on and tier in cnt]
+        if late and k >= self.N_BASE.get(tier, 10**9):
+            # the streams added after the older ones, one after the other; an index beyond them (more cases were asked for
+            # because the source changed) goes round again, with slots that leave every choice to rng
+            cycle, pos = divmod(k - self.N_BASE[tier], sum(c for _, c in late))
+            for name, cnt in late:
+                if pos < cnt:
+                    return getattr(self, "gen_" + name)(rng, pos + cycle * max(cnt, 64))
+                pos -= cnt
         if k % 8 == 3:
             return self.gen_mutate(rng)
         if k % 8 == 6:
@@ -465,8 +553,148 @@ class C17:
         return [f"d:{d}", "kind:labelled", "stream:labelled", f"labels:data:{dl['kind']}", f"labels:weights:{wl['kind']}",
                 f"labels:relation:{relation}"]
 
+    # ---- entries that are not finite and not NaN
+    @staticmethod
+    def _special_rows(rng, flavour, base_rows, d):
+        """the rows (d >= 2) / consecutive entries (d == 1) of one flavour, written over copies of finite rows"""
+        sign = lambda: rng.choice(["inf", "-inf"])          # noqa: E731
+        huge = lambda: rng.choice([HUGE, HUGE, -HUGE, 1.0e308, -1.7e308])      # noqa: E731
+        if d == 1:
+            return {"pinf": [["inf"]], "ninf": [["-inf"]], "both": [["inf"], ["-inf"]], "same2": [[s] for s in [sign()] * 2],
+                    "all": [[sign()]], "inf_nan": rng.choice([[[sign()], [None]], [[None], [sign()]]]),
+                    "huge": [[huge()], [huge()]]}[flavour]
+        row = list(base_rows[0])
+        j1, j2 = rng.sample(range(d), 2)
+        if flavour == "pinf":
+            row[j1] = "inf"
+        elif flavour == "ninf":
+            row[j1] = "-inf"
+        elif flavour == "both":
+            row[j1], row[j2] = "inf", "-inf"
+            if d == 3 and rng.random() < 0.3:
+                row[3 - j1 - j2] = sign()
+        elif flavour == "same2":
+            row[j1] = row[j2] = sign()
+        elif flavour == "all":
+            row = [sign() for _ in range(d)]
+        elif flavour == "inf_nan":
+            row[j1], row[j2] = sign(), None
+        else:
+            row[j1], row[j2] = huge(), huge()
+            if d == 3 and rng.random() < 0.5:
+                row[3 - j1 - j2] = huge()
+        return [row]
+
+    def gen_nonfinite(self, rng, slot=None):
+        """explicit finite bins, finite rows, and 1..3 rows / entries that hold +inf, -inf, both signs, an infinity beside a NaN,
+        or finite values so large that their sum overflows. slot: position in the stream -- the first sixteen cases take the eight
+        flavours in turn, in two and then in one / three dimensions, with the default dropna"""
+        d = rng.choice([1, 2, 2, 3])
+        flavour = rng.choice(NONFINITE_FLAVOURS)
+        n = rng.choice([4, 6, 8, 12])
+        with_nan = rng.random() < 0.5
+        dropna = rng.random() < (0.9 if with_nan else 0.6)
+        if slot is not None and slot < 2 * len(NONFINITE_FLAVOURS):
+            flavour = NONFINITE_FLAVOURS[slot % len(NONFINITE_FLAVOURS)]
+            d = 2 if slot < len(NONFINITE_FLAVOURS) else rng.choice([1, 3])
+            dropna = dropna or slot < len(NONFINITE_FLAVOURS)
+        if d == 1:
+            pairs, _ = gen1.rising_bins(rng, allow_gaps=False)
+            binning, axes_pairs = [gen1.binning_json(pairs, form="static_obj")], [pairs]
+        else:
+            axes = [gennd.axis_binning(rng, maxbins=3, allow_fixed=False) for _ in range(d)]
+            binning, axes_pairs = [a[0] for a in axes], [a[1] for a in axes]
+        rows = [list(r) for r in self._gen_rows(rng, axes_pairs, n, False, 0.15 if with_nan else 0)]
+        flavours = [flavour]
+        for _ in range(rng.choice([0, 0, 1, 2])):
+            flavours.append("huge" if flavour == "huge_only" else rng.choice(NONFINITE_FLAVOURS[:-1]))
+        blocks = [self._special_rows(rng, "huge" if f == "huge_only" else f, self._gen_rows(rng, axes_pairs, 1, False, 0), d) for f in flavours]
+        while sum(len(b) for b in blocks) > n - 1:
+            blocks.pop()
+        items = [[r] for r in rows[:n - sum(len(b) for b in blocks)]] + blocks      # a block stays together (d == 1: neighbours)
+        rng.shuffle(items)
+        rows = [list(r) for it in items for r in it]
+        exps = list(range(n))
+        rng.shuffle(exps)
+        wmode = rng.choice(["int", "int", "float", "float", "float", "none", "none"])
+        if wmode == "none":
+            ws, wk = None, None
+        elif wmode == "int":
+            ws, wk = [2 ** e for e in exps], "int64"
+        else:
+            ws, wk = [2.0 ** (e - 4) for e in exps], "float64"
+        opened = open_triggers()
+        case = {"kind": "nonfinite", "d": d, "binning": binning, "data": rows, "weights": ws, "wkind": wk,
+                "names": [f"col{i}" for i in range(d)], "dropna": dropna, "flavour": flavour,
+                "extra": {"sub": rng.sample(range(d), 2) if d >= 2 else [0], "chunk": rng.choice([1, 2, 3, 7, n]), "colchunk": rng.choice([1, d])},
+                "open": opened}
+        case["tags"] = self._nonfinite_tags(case)
+        return case
+
+    @staticmethod
+    def _nonfinite_tags(case):
+        rows = case["data"]
+        t = [f"d:{case['d']}", "kind:nonfinite", "stream:nonfinite", f"nonfinite:{case['flavour']}"]
+        if any("inf" in r and "-inf" in r for r in rows):
+            t.append("nonfinite:row_with_both_signs")
+        if any(any(is_infinite(v) for v in r) and any(v is None for v in r) for r in rows):
+            t.append("nonfinite:row_with_inf_and_nan")
+        if any(any(is_infinite(v) for v in r) for r in rows):
+            t.append("nonfinite:inf")
+        if any(any(isinstance(v, float) and abs(v) >= 1e308 for v in r) for r in rows):
+            t.append("nonfinite:huge")
+        if any(v is None for r in rows for v in r):
+            t.append("nonfinite:nan")
+        t.append("nonfinite:dropna" if case["dropna"] else "nonfinite:no_dropna")
+        t.append("nonfinite:weights" if case["weights"] else "nonfinite:no_weights")
+        return t + [f"open:{o}" for o in case.get("open", [])]
+
+    # ---- weights of the right size and another shape
+    def gen_wshape(self, rng, slot=None):
+        """one data set (d = 1: an r x c table, entered flat and as the table; d = 2, 3: n rows) with weights = distinct powers of two,
+        entered in every shape of the right size. slot: the first four cases are 1-D without NaN and with the default dropna"""
+        d = rng.choice([1, 1, 1, 2, 2, 3])
+        r, c = rng.choice([(1, 1), (1, 3), (2, 2), (2, 3), (3, 2), (2, 4), (4, 2), (3, 3), (1, 6), (3, 4), (6, 1)])
+        dropna = rng.random() < 0.65
+        with_nan = rng.random() < (0.45 if dropna else 0.2)
+        ints = rng.random() < 0.2
+        if slot is not None and slot < 4:
+            d, with_nan, dropna = 1, False, True
+            r, c = [(2, 3), (3, 2), (1, 4), (2, 2)][slot]
+        n = r * c
+        if d == 1:
+            pairs, _ = gen1.rising_bins(rng, allow_gaps=False)
+            binning, axes_pairs = [gen1.binning_json(pairs, form="static_obj")], [pairs]
+        else:
+            binning, axes_pairs = self._gen_axes(rng, d)
+        rows = [list(x) for x in self._gen_rows(rng, axes_pairs, n, ints, 0.2 if with_nan and not ints else 0)]
+        exps = list(range(n))
+        rng.shuffle(exps)
+        if rng.random() < 0.4:
+            ws, wk = [2 ** e for e in exps], "int64"
+        else:
+            ws, wk = [2.0 ** (e - 4) for e in exps], "float64"
+        opened = open_triggers()
+        case = {"kind": "wshape", "d": d, "binning": binning, "data": rows, "rc": [r, c], "ints": ints, "weights": ws, "wkind": wk,
+                "wcontainer": rng.choice(["array", "array", "list"]), "names": [f"col{i}" for i in range(d)], "dropna": dropna,
+                "extra": {"chunk": rng.choice([1, 2, 3, n])}, "open": opened}
+        case["tags"] = self._wshape_tags(case)
+        return case
+
+    @staticmethod
+    def _wshape_tags(case):
+        t = [f"d:{case['d']}", "kind:wshape", "stream:wshape", "wshape:dropna" if case["dropna"] else "wshape:no_dropna",
+             f"wshape:weights_as_{case['wcontainer']}"]
+        if any(v is None for r in case["data"] for v in r):
+            t.append("wshape:nan")
+        return t + [f"open:{o}" for o in case.get("open", [])]
+
     # ------------------------------------------------------------------ the implementation
     def run_impl(self, case):
+        if case["kind"] == "nonfinite":
+            return self.run_nonfinite(case)
+        if case["kind"] == "wshape":
+            return self.run_wshape(case)
         if case["kind"] == "labelled":
             return self.run_labelled(case)
         if case["kind"] == "dask":
@@ -1556,11 +1784,272 @@ class C17:
                 out["touched"].append(f"the labelled weights hold {values_of(W).tolist()} under {list(W.index)[:8]} after the calls"[:300])
         return {"outs": out, "log": log, "why": why}
 
+    # ------------------------------------------------------------------ entries that are not finite and not NaN
+    def run_nonfinite(self, case):
+        """every container of the data (with rows / entries holding infinities or huge finite values) against the same call on the
+        numpy array; the containers are built outside the recorded calls"""
+        import dask.array as da
+        import pandas as pd
+        import polars as pl
+        from physt import h, h1, h2, h3
+        import physt.compat.pandas  # noqa: F401
+        import physt.compat.polars  # noqa: F401
+        d, names, dropna, n = case["d"], case["names"], case["dropna"], len(case["data"])
+        extra = case["extra"]
+        opened = set(case.get("open", []))
+        A = np.array([[dec_value(v) for v in r] for r in case["data"]], dtype=float).reshape(n, d)
+        ws = None if case["weights"] is None else np.array(case["weights"], dtype=case["wkind"])
+        wl = None if ws is None else ws.tolist()
+        kw = dict(dropna=dropna)
+        invalid = any(v is None for r in case["data"] for v in r) and not dropna
+        out = {"results": {}, "refusals": {}, "pairs": {}, "outcomes": {}}
+        log, why = [], {}
+
+        def mkb():
+            return [impl1.mk_binning(b) for b in case["binning"]]
+
+        def run(name, f, snap):
+            try:
+                return snap(f())
+            except Exception as e:
+                log.append(f"{name}: {type(e).__name__}: {e}"[:160])
+                return "REFUSED"
+
+        def P(name, f, ref, snap, names=None, must=True):
+            name = "nonfinite_" + name
+            out["pairs"][name] = {"got": run(name, f, snap), "ref": ref, "names": names, "must": must, "invalid": invalid}
+        W = None if ws is None else pd.Series(ws, name="w")
+        pw = pl.Series("w", ws) if ws is not None and (ws.dtype.kind == "f" or "polars_int_weights" in opened) else None
+        if d == 1:
+            x, col = A[:, 0].copy(), names[0]
+
+            def b():
+                return mkb()[0]
+            ref = run("ref", lambda: h1(x, b(), weights=ws, **kw), light1)
+            out["results"]["array"] = ref
+            P("list", lambda: h1(x.tolist(), b(), weights=wl, **kw), ref, light1)
+            P("tuple", lambda: h1(tuple(x.tolist()), b(), weights=ws, **kw), ref, light1)
+            P("iterator", lambda: h1(iter(x.tolist()), b(), weights=ws, **kw), ref, light1)
+            if n % 2 == 0 and n >= 4:
+                x2 = x.reshape(2, -1)
+                w2 = None if ws is None else ws.reshape(2, -1)
+                P("array2d", lambda: h1(x2, b(), weights=w2, **kw), ref, light1)
+                P("array2d_F", lambda: h1(np.asfortranarray(x2), b(), weights=w2, **kw), ref, light1)
+                P("array2d_transposed_view", lambda: h1(x2.T.copy().T, b(), weights=None if w2 is None else w2.T.copy().T, **kw), ref, light1)
+                P("nested_list", lambda: h1(x2.tolist(), b(), weights=None if w2 is None else w2.tolist(), **kw), ref, light1)
+                P("nested_tuple", lambda: h1(tuple(map(tuple, x2.tolist())), b(), weights=w2, **kw), ref, light1)
+                P("iterator_of_rows", lambda: h1(iter(x2.tolist()), b(), weights=w2, **kw), ref, light1)
+            S = pd.Series(x, name=col)
+            P("pandas_series", lambda: h1(S, b(), weights=ws, **kw), ref, light1, col)
+            P("pandas_series_series_weights", lambda: h1(S, b(), weights=W, **kw), ref, light1, col)
+            P("pandas_accessor_h1", lambda: S.physt.h1(b(), weights=ws, **kw), ref, light1, col)
+            P("pandas_accessor_histogram", lambda: S.physt.histogram(b(), weights=W, **kw), ref, light1, col)
+            df = pd.DataFrame({col: x, "w": np.ones(n) if ws is None else ws})
+            df1 = pd.DataFrame({col: x})
+            P("pandas_frame_accessor_h1_column", lambda: df.physt.h1(col, b(), weights=None if ws is None else "w", **kw), ref, light1, col)
+            P("pandas_frame_accessor_histogram", lambda: df.physt.histogram(col, b(), weights=ws, **kw), ref, light1, col)
+            P("pandas_frame1_accessor_h1_nocolumn", lambda: df1.physt.h1(bins=b(), weights=ws, **kw), ref, light1, col)
+            pser = pl.Series(col, x)
+            P("polars_series", lambda: h1(pser, b(), weights=ws, **kw), ref, light1, col)
+            P("polars_accessor", lambda: pser.physt.h1(b(), weights=ws, **kw), ref, light1, col)
+            P("polars_series_pandas_weights", lambda: h1(pser, b(), weights=W, **kw), ref, light1, col)
+            if pw is not None:
+                P("polars_series_polars_weights", lambda: pser.physt.h1(b(), weights=pw, **kw), ref, light1, col)
+                P("array_polars_weights", lambda: h1(x, b(), weights=pw, **kw), ref, light1)
+            darr = da.from_array(x, chunks=extra["chunk"])
+            P("dask_plain_h1", lambda: h1(darr, b(), weights=ws, **kw), ref, light1)
+            if "tuple_form_args" in opened or (ws is None and dropna):
+                P("tuple_form", lambda: h1(("grp", x), b(), weights=ws, **kw), ref, light1)
+                P("tuple_form_series", lambda: h1(("grp", S), b(), weights=ws, **kw), ref, light1, col)
+            content = [(x, A[:, 0], "the array"), (S.to_numpy(), A[:, 0], "the pandas Series"), (pser.to_numpy(), A[:, 0], "the polars Series")]
+        else:
+            sub = extra["sub"]
+            snames = [names[i] for i in sub]
+            A0 = A.copy()
+
+            def subb():
+                bb = mkb()
+                return [bb[i] for i in sub]
+            ref = run("ref", lambda: h(A, mkb(), weights=ws, **kw), lightn)
+            out["results"]["array"] = ref
+            P("list", lambda: h(A.tolist(), mkb(), weights=wl, **kw), ref, lightn)
+            P("tuple", lambda: h(tuple(map(tuple, A.tolist())), mkb(), weights=ws, **kw), ref, lightn)
+            P("array_F", lambda: h(np.asfortranarray(A), mkb(), weights=ws, **kw), ref, lightn)
+            df = pd.DataFrame(A, columns=names)
+            P("pandas_frame", lambda: h(df, mkb(), weights=ws, **kw), ref, lightn, names)
+            P("pandas_frame_series_weights", lambda: h(df, mkb(), weights=W, **kw), ref, lightn, names)
+            P("pandas_frame_accessor", lambda: df.physt.histogram(None, mkb(), weights=ws, **kw), ref, lightn, names)
+            pdf = pl.DataFrame({nm: A[:, j] for j, nm in enumerate(names)})
+            P("polars_frame", lambda: h(pdf, mkb(), weights=ws, **kw), ref, lightn, names)
+            P("polars_frame_accessor", lambda: pdf.physt.h(bins=mkb(), weights=ws, **kw), ref, lightn, names)
+            if pw is not None:
+                P("polars_frame_polars_weights", lambda: h(pdf, mkb(), weights=pw, **kw), ref, lightn, names)
+            darr = da.from_array(A, chunks=(extra["chunk"], extra["colchunk"]))
+            P("dask_plain_h", lambda: h(darr, mkb(), weights=ws, **kw), ref, lightn)
+            # two columns: h2 of every carrier, the frame accessors with a column selection
+            ref_sub = run("ref_sub", lambda: h(A[:, sub], subb(), weights=ws, **kw), lightn)
+            out["ref_sub"] = ref_sub
+            c0, c1 = A[:, sub[0]].copy(), A[:, sub[1]].copy()
+            P("h2_arrays", lambda: h2(c0, c1, subb(), weights=ws, **kw), ref_sub, lightn)
+            P("h2_lists", lambda: h2(c0.tolist(), c1.tolist(), subb(), weights=wl, **kw), ref_sub, lightn)
+            P("h2_tuples", lambda: h2(tuple(c0.tolist()), tuple(c1.tolist()), subb(), weights=ws, **kw), ref_sub, lightn)
+            P("h2_pandas_series", lambda: h2(df[snames[0]], df[snames[1]], subb(), weights=ws, **kw), ref_sub, lightn, snames)
+            P("h2_polars_series", lambda: h2(pdf[snames[0]], pdf[snames[1]], subb(), weights=ws, **kw), ref_sub, lightn, snames)
+            P("h2_series_and_array", lambda: h2(df[snames[0]], c1, subb(), weights=W, **kw), ref_sub, lightn)
+            if n % 2 == 0 and n >= 4:
+                P("h2_2d_arrays", lambda: h2(c0.reshape(2, -1), c1.reshape(2, -1), subb(), weights=ws, **kw), ref_sub, lightn)
+            P("pandas_frame_accessor_h2", lambda: df.physt.h2(snames[0], snames[1], subb(), weights=ws, **kw), ref_sub, lightn, snames)
+            P("pandas_frame_accessor_histogram_subset", lambda: df.physt.histogram(snames, subb(), weights=ws, **kw), ref_sub, lightn, snames)
+            P("polars_frame_accessor_2sel", lambda: pdf.physt.h(*snames, bins=subb(), weights=ws, **kw), ref_sub, lightn, snames)
+            if d == 2:
+                P("pandas_frame_accessor_h2_nocolumns", lambda: df.physt.h2(bins=mkb(), weights=ws, **kw), ref, lightn, names)
+            if d == 3:
+                P("h3", lambda: h3(A, mkb(), weights=ws, **kw), ref, lightn)
+                P("h3_columns", lambda: h3([A[:, 0], A[:, 1], A[:, 2]], mkb(), weights=ws, **kw), ref, lightn)
+                P("h3_frame", lambda: h3(df, mkb(), weights=ws, **kw), ref, lightn, names)
+            content = [(A, A0, "the array"), (df.to_numpy(), A0, "the pandas frame"), (pdf.to_numpy(), A0, "the polars frame")]
+        # no call may have changed what was handed to it
+        out["touched"] = [f"{what} holds {np.asarray(now).tolist()} after the calls"[:300] for now, before, what in content
+                          if not np.array_equal(np.asarray(now, dtype=float).reshape(np.shape(before)), before, equal_nan=True)]
+        if ws is not None and not np.array_equal(ws, np.array(case["weights"], dtype=case["wkind"])):
+            out["touched"].append(f"the weights hold {ws.tolist()} after the calls"[:300])
+        return {"outs": out, "log": log, "why": why}
+
+    # ------------------------------------------------------------------ weights of the right size and another shape
+    def run_wshape(self, case):
+        """each carrier of the data with the weights in every shape of the right size: 'same' (the shape of the data; rows: (n,)), a
+        column (n, 1), a row (1, n), (n, 1, 1), another factorisation (a, b), flat / transposed for a 2-D data array, 0-d for one
+        value. For every shape the call on the numpy array is the reference of the other carriers (accepted or refused)."""
+        import dask.array as da
+        import pandas as pd
+        import polars as pl
+        from physt import h, h1, h2, h3
+        import physt.compat.pandas  # noqa: F401
+        import physt.compat.polars  # noqa: F401
+        d, names, dropna, n = case["d"], case["names"], case["dropna"], len(case["data"])
+        r, c = case["rc"]
+        if r * c != n:
+            raise AssertionError(f"harness: a {r} x {c} table of {n} values")
+        dt = int if case["ints"] and not any(v is None for row in case["data"] for v in row) else float
+        A = np.array([[dec_value(v) for v in row] for row in case["data"]], dtype=dt).reshape(n, d)
+        ws = np.array(case["weights"], dtype=case["wkind"])
+        as_list = case["wcontainer"] == "list"
+        kw = dict(dropna=dropna)
+        out = {"results": {}, "refusals": {}, "pairs": {}, "outcomes": {}, "wrefs": {}, "wpairs": {}}
+        log, why = [], {}
+
+        def mkb():
+            return [impl1.mk_binning(b) for b in case["binning"]]
+
+        def b():
+            return mkb()[0]
+
+        def run(name, f, snap):
+            try:
+                return snap(f())
+            except Exception as e:
+                log.append(f"{name}: {type(e).__name__}: {e}"[:160])
+                return "REFUSED"
+
+        def wmake(sname, shape):
+            w = ws.reshape(r, c).T if sname == "transposed" else ws.reshape(shape)        # the transposed weights: a view
+            if w.shape != tuple(shape) or (sname != "transposed" and not np.array_equal(w.ravel(), ws)):
+                raise AssertionError(f"harness: weights of shape {w.shape} for {shape}")
+            return w.tolist() if as_list else w          # 0-d as a list: a python number
+
+        def group(gname, dshape, same_shape, shapes, carriers, snap):
+            """carriers[0] is the numpy call; shapes: (name, shape, one_axis) -- one_axis: all axes but one have length 1, so the order
+            of the weights is not in question"""
+            seen = {tuple(same_shape)}
+            todo = [("same", tuple(same_shape), True)]
+            for sname, shp, one in shapes:
+                if tuple(shp) not in seen:
+                    seen.add(tuple(shp))
+                    todo.append((sname, tuple(shp), one))
+            same = None
+            for sname, shp, one in todo:
+                key = f"{gname}.{sname}"
+                w = wmake(sname, shp)
+                ref = run(f"wshape_{gname}_numpy.{sname}", lambda: carriers[0][1](w), snap)
+                if sname == "same":
+                    same = ref
+                out["wrefs"][key] = {"ref": ref, "same": same, "dshape": list(dshape), "wshape": list(shp), "one_axis": one,
+                                     "mismatch": sname != "same", "call": carriers[0][0]}
+                for cname, f, axn in carriers[1:]:
+                    nm = f"wshape_{gname}_{cname}.{sname}"
+                    out["wpairs"][nm] = {"got": run(nm, lambda: f(w), snap), "group": key, "names": axn}
+            return same
+        pair = factor_pair(n)
+        if d == 1:
+            x, col = A[:, 0].copy(), names[0]
+            S, pser, darr = pd.Series(x, name=col), pl.Series(col, x), da.from_array(x, chunks=case["extra"]["chunk"])
+            df = pd.DataFrame({col: x, "other": np.zeros(n)})
+            flat_shapes = [("column", (n, 1), True), ("row", (1, n), True), ("cube", (n, 1, 1), True)]
+            if r > 1 and c > 1:
+                flat_shapes.append(("table", (r, c), False))
+            if n == 1:
+                flat_shapes.append(("zero_d", (), True))
+            same = group("flat", (n,), (n,), flat_shapes, [
+                ("h1(numpy array of shape (n,))", lambda w: h1(x, b(), weights=w, **kw), None),
+                ("list", lambda w: h1(x.tolist(), b(), weights=w, **kw), None),
+                ("tuple", lambda w: h1(tuple(x.tolist()), b(), weights=w, **kw), None),
+                ("iterator", lambda w: h1(iter(x.tolist()), b(), weights=w, **kw), None),
+                ("pandas_series", lambda w: h1(S, b(), weights=w, **kw), col),
+                ("pandas_accessor", lambda w: S.physt.h1(b(), weights=w, **kw), col),
+                ("pandas_frame_accessor", lambda w: df.physt.h1(col, b(), weights=w, **kw), col),
+                ("polars_series", lambda w: h1(pser, b(), weights=w, **kw), col),
+                ("polars_accessor", lambda w: pser.physt.h1(b(), weights=w, **kw), col),
+                ("dask_plain", lambda w: h1(darr, b(), weights=w, **kw), None)], light1)
+            out["results"]["array"] = same
+            T = x.reshape(r, c)
+            table_shapes = [("flat", (n,), True), ("transposed", (c, r), r == 1 or c == 1), ("column", (n, 1), True), ("row", (1, n), True)]
+            tsame = group("table", (r, c), (r, c), table_shapes, [
+                ("h1(numpy array of shape (r, c))", lambda w: h1(T, b(), weights=w, **kw), None),
+                ("array_F", lambda w: h1(np.asfortranarray(T), b(), weights=w, **kw), None),
+                ("nested_list", lambda w: h1(T.tolist(), b(), weights=w, **kw), None),
+                ("nested_tuple", lambda w: h1(tuple(map(tuple, T.tolist())), b(), weights=w, **kw), None),
+                ("iterator_of_rows", lambda w: h1(iter(T.tolist()), b(), weights=w, **kw), None),
+                ("list_of_arrays", lambda w: h1(list(T), b(), weights=w, **kw), None)], light1)
+            out["pairs"]["wshape_table_numpy.same"] = {"got": tsame, "ref": same, "names": None, "must": True,
+                                                       "invalid": any(v is None for row in case["data"] for v in row) and not dropna}
+        else:
+            df = pd.DataFrame(A, columns=names)
+            pdf = pl.DataFrame({nm: A[:, j] for j, nm in enumerate(names)})
+            shapes = [("column", (n, 1), True), ("row", (1, n), True), ("cube", (n, 1, 1), True)]
+            if pair is not None:
+                shapes.append(("table", pair, False))
+            if n == 1:
+                shapes.append(("zero_d", (), True))
+            carriers = [("h(numpy array of shape (n, d))", lambda w: h(A, mkb(), weights=w, **kw), None),
+                        ("list", lambda w: h(A.tolist(), mkb(), weights=w, **kw), None),
+                        ("tuple", lambda w: h(tuple(map(tuple, A.tolist())), mkb(), weights=w, **kw), None),
+                        ("array_F", lambda w: h(np.asfortranarray(A), mkb(), weights=w, **kw), None),
+                        ("pandas_frame", lambda w: h(df, mkb(), weights=w, **kw), names),
+                        ("pandas_frame_accessor", lambda w: df.physt.histogram(None, mkb(), weights=w, **kw), names),
+                        ("polars_frame", lambda w: h(pdf, mkb(), weights=w, **kw), names),
+                        ("polars_frame_accessor", lambda w: pdf.physt.h(bins=mkb(), weights=w, **kw), names)]
+            if d == 2:
+                carriers += [("h2_arrays", lambda w: h2(A[:, 0], A[:, 1], mkb(), weights=w, **kw), None),
+                             ("h2_lists", lambda w: h2(A[:, 0].tolist(), A[:, 1].tolist(), mkb(), weights=w, **kw), None),
+                             ("h2_pandas_series", lambda w: h2(df[names[0]], df[names[1]], mkb(), weights=w, **kw), names),
+                             ("h2_polars_series", lambda w: h2(pdf[names[0]], pdf[names[1]], mkb(), weights=w, **kw), names),
+                             ("pandas_frame_accessor_h2", lambda w: df.physt.h2(names[0], names[1], mkb(), weights=w, **kw), names)]
+            else:
+                carriers += [("h3", lambda w: h3(A, mkb(), weights=w, **kw), None),
+                             ("h3_columns", lambda w: h3([A[:, 0], A[:, 1], A[:, 2]], mkb(), weights=w, **kw), None),
+                             ("h3_frame", lambda w: h3(df, mkb(), weights=w, **kw), names)]
+            out["results"]["array"] = group("rows", (n, d), (n,), shapes, carriers, lightn)
+        if not np.array_equal(ws, np.array(case["weights"], dtype=case["wkind"])):
+            out["touched"] = [f"the weights hold {ws.tolist()} after the calls"[:300]]
+        return {"outs": out, "log": log, "why": why}
+
     def model_case(self, case, io):
         """the reference call (plain numpy array) as a construction of the model; for the 'mutate' stream the array built from the
         content after the last change, for the 'nested' stream the table read row by row"""
-        if case["kind"] not in ("containers", "mutate", "nested", "labelled"):
+        if case["kind"] not in ("containers", "mutate", "nested", "labelled", "nonfinite", "wshape"):
             return None
+        if case["kind"] == "nonfinite" and any(is_infinite(v) for r in case["data"] for v in r):
+            return None         # the model's values are rationals: no infinities (huge finite values are modelled)
         ref = io["outs"]["results"].get("array")
         if ref == "REFUSED" or ref is None:
             return None
@@ -1655,6 +2144,130 @@ class C17:
                 return [f"pairing: cell {idx} of the numpy arrays' histogram has errors2 {ref['err2'][pos]}, the squared weights taken by position give {e}"]
         return []
 
+    @staticmethod
+    def _exact_expectation(case, ref, cols):
+        """the numpy call of a 'nonfinite' / 'wshape' case (cols: on these columns only) against the rows taken one by one: a row
+        is kept iff it holds no NaN; its cell comes from comparing each coordinate with the edges (an infinite one is in no bin);
+        contents, errors2 and the weight that hit no cell are exact sums (the weights are powers of two)"""
+        rows = [[exact_value(v) for v in r] for r in case["data"]]
+        specs = case["binning"]
+        if cols is not None:
+            rows, specs = [[r[j] for j in cols] for r in rows], [specs[j] for j in cols]
+        what = "the numpy call" + (f" on columns {cols}" if cols is not None else "")
+        if any(v is None for r in rows for v in r) and not case["dropna"]:
+            return [f"accepted_invalid: {what} accepted NaN with dropna=False"] if isinstance(ref, dict) else []
+        if not isinstance(ref, dict):
+            return [f"refused_valid: {what} was refused (explicit bins; no NaN, or dropna=True)"]
+        one_d = "under" in ref
+        axes = [([(Fraction(l), Fraction(r)) for l, r in b], spec.get("ire", True)) for b, spec in zip([ref["bins"]] if one_d else ref["bins"], specs)]
+        shape = [len(a[0]) for a in axes]
+        ws = case["weights"]
+        cells, outside = {}, []
+        for i, r in enumerate(rows):
+            if any(v is None for v in r):
+                continue
+            w = Fraction(ws[i]) if ws is not None else Fraction(1)
+            c = gennd.cell_of(axes, r)
+            if c is None:
+                outside.append((i, w))
+            else:
+                a, b2 = cells.get(c, (Fraction(0), Fraction(0)))
+                cells[c] = (a + w, b2 + w * w)
+
+        def differs(got, exp):
+            try:
+                return Fraction(got) != exp
+            except (TypeError, ValueError):
+                return True
+        if len(ref["freq"]) != int(np.prod(shape)):
+            return [f"shape: {len(ref['freq'])} cells for bins of shape {shape}"]
+        for pos, idx in enumerate(gennd.unravel(shape)):
+            f, e = cells.get(idx, (Fraction(0), Fraction(0)))
+            if differs(ref["freq"][pos], f):
+                return [f"rows_kept: cell {idx} of {what} holds {ref['freq'][pos]}, the rows without NaN give {f}"]
+            if differs(ref["err2"][pos], e):
+                return [f"rows_kept: cell {idx} of {what} has errors2 {ref['err2'][pos]}, the rows without NaN give {e}"]
+
+        def show(pairs):
+            pairs = sorted(pairs, key=lambda p: not any(is_infinite(v) or (isinstance(v, float) and abs(v) >= 1e308) for v in case["data"][p[0]]))
+            return ", ".join(f"#{i} {case['data'][i] if cols is None else [case['data'][i][j] for j in cols]} (weight {w})" for i, w in pairs[:4])
+        if one_d:
+            pairs = axes[0][0]
+            lo, hi = pairs[0][0], pairs[-1][1]
+            under = [(i, w) for i, w in outside if rows[i][0] < lo]
+            over = [(i, w) for i, w in outside if not rows[i][0] < hi]
+            gapped = any(pairs[i][1] != pairs[i + 1][0] for i in range(len(pairs) - 1))     # entries between bins: not looked at
+            for key, part in (("under", under), ("over", over)) if not gapped else ():
+                exp = sum((w for _, w in part), Fraction(0))
+                if differs(ref[key], exp):
+                    return [f"rows_kept: {key}flow of {what} is {ref[key]}, the entries without NaN {'below' if key == 'under' else 'above'} the "
+                            f"bins weigh {exp}: {show(part)} -- only NaN drops an entry"[:400]]
+        else:
+            exp = sum((w for _, w in outside), Fraction(0))
+            if differs(ref["missed"], exp):
+                return [f"rows_kept: missed of {what} is {ref['missed']}, the rows without NaN that hit no cell weigh {exp}: {show(outside)} -- "
+                        "only NaN drops a row, one with infinite coordinates is kept and counted as missed"[:400]]
+        return []
+
+    @staticmethod
+    def _shape_rules(case, o, log):
+        """shapes of data and weights must match: weights of the right size and another shape are refused (always when dropna=True,
+        where the library has a mask to compare with); whatever the numpy array call does with a shape -- refuse, accept -- every
+        carrier does; an accepted call with weights that have a single non-unit axis pairs by position (= the proper weights)"""
+        fails = []
+        invalid = any(v is None for r in case["data"] for v in r) and not case["dropna"]
+        dropna = case["dropna"]
+
+        def call(g):
+            return f"{g['call']} with weights of shape {tuple(g['wshape'])} (data of shape {tuple(g['dshape'])}, dropna={dropna})"
+        for key, g in o["wrefs"].items():
+            ref, same = g["ref"], g["same"]
+            if invalid:
+                if isinstance(ref, dict):
+                    fails.append(f"accepted_invalid: {call(g)} accepted NaN with dropna=False")
+                continue
+            if not g["mismatch"]:
+                if not isinstance(ref, dict):
+                    why = "; ".join(l for l in log if l.startswith(f"wshape_{key.split('.')[0]}_numpy.same"))[:160]
+                    fails.append(f"refused_valid: {call(g)} was refused: {why}")
+                continue
+            if isinstance(ref, dict):
+                if dropna or PIN_REFUSAL_WITHOUT_DROPNA:
+                    fails.append(f"accepted_misshaped: {call(g)} was accepted: contents {ref['freq']}"
+                                 + (f", with the weights in the shape of the data {same['freq']}" if isinstance(same, dict) else ""))
+                elif g["one_axis"] and isinstance(same, dict):
+                    for f in (F1 if "under" in same else FN):
+                        if ref[f] != same[f]:
+                            fails.append(f"misshaped_pairing: {call(g)} was accepted with {f} = {ref[f]}; the same weights in the shape of the "
+                                         f"data give {same[f]}"[:400])
+                            break
+        for name, p in o["wpairs"].items():
+            g = o["wrefs"][p["group"]]
+            got, ref = p["got"], g["ref"]
+            what = f"{name} (weights of shape {tuple(g['wshape'])}, data of shape {tuple(g['dshape'])}, dropna={dropna})"
+            if not isinstance(ref, dict):
+                if isinstance(got, dict):
+                    fails.append((f"accepted_invalid: {what} accepted NaN with dropna=False" if invalid else
+                                  f"accepted_misshaped: {what} was accepted (contents {got['freq']}), the numpy array call refuses these weights")
+                                 if invalid or g["mismatch"] else f"container_differs: {what} was accepted, the numpy array call is refused")
+                continue
+            if got == "REFUSED":
+                why = "; ".join(l[len(name) + 2:] for l in log if l.startswith(name + ":"))[:160]
+                fails.append(f"container_refused: {what} was refused although the numpy array call is accepted: {why}")
+                continue
+            if ("under" in got) != ("under" in ref):
+                fails.append(f"container_differs: {what}: a {'1-D' if 'under' in got else 'N-D'} histogram came back")
+                continue
+            for f in (F1 if "under" in ref else FN):
+                if got[f] != ref[f]:
+                    fails.append(f"container_differs: {what}: {f} = {got[f]}, the numpy array call gives {ref[f]}"[:400])
+                    break
+            if p["names"] is not None:
+                gn = got["axis_name"] if "axis_name" in got else got["names"]
+                if gn != p["names"]:
+                    fails.append(f"axis_name: {name} has axis name(s) {gn!r}, expected {p['names']!r}")
+        return fails
+
     def oracle(self, case, io):
         o = io["outs"]
         fails = []
@@ -1663,6 +2276,23 @@ class C17:
             for name, r in o["refusals"].items():
                 if r != "REFUSED":
                     fails.append(f"accepted_invalid: {name} was accepted")
+            return fails[:6]
+        if case["kind"] == "nonfinite":
+            # only NaN drops an entry / a row: one that holds infinities (or huge finite values) is kept and counted, with its
+            # weight, where the comparison with the edges puts it -- in every container as in the numpy array
+            for t in o.get("touched", []):
+                fails.append("container_changed: a call changed the container handed to it: " + t)
+            fails += self._exact_expectation(case, o["results"].get("array"), None)
+            if "ref_sub" in o:
+                fails += self._exact_expectation(case, o["ref_sub"], case["extra"]["sub"])
+            self._pairs(o, io["log"], fails)
+            return fails[:6]
+        if case["kind"] == "wshape":
+            for t in o.get("touched", []):
+                fails.append("container_changed: a call changed the weights handed to it: " + t)
+            fails += self._exact_expectation(case, o["results"].get("array"), None)
+            self._pairs(o, io["log"], fails)
+            fails += self._shape_rules(case, o, io["log"])
             return fails[:6]
         if case["kind"] == "labelled":
             # labels do not take part: every spelling gives the histogram of the numpy arrays of the values and of the weights
@@ -1787,7 +2417,12 @@ class C17:
         t = list(case["tags"])
         forms = [k for k, v in o["results"].items() if k not in ("array", "ref_hist", "h2_ref_noweights")] + list(o["pairs"])
         t += [f"containers:{len(forms)}"] + (["weights"] if case["weights"] and case["kind"] == "containers" else [])
-        if case["kind"] == "labelled":
+        if case["kind"] == "nonfinite":
+            t += [f"container:{k}" for k in forms]
+        elif case["kind"] == "wshape":
+            t += sorted({f"container:{k.split('.')[0]}" for k in o["wpairs"]})
+            t += sorted({f"wshape:{k}:{'refused' if g['ref'] == 'REFUSED' else 'accepted'}" for k, g in o["wrefs"].items()})
+        elif case["kind"] == "labelled":
             t += [f"container:{k}" for k in forms]
             t += ["labelled:weights" if case["weights"] else "labelled:no_weights"]
             t += [f"labelled:dtype:{case['ddtype']}"] if case["ddtype"] else []
@@ -1831,8 +2466,47 @@ class C17:
         c["tags"] = self._labelled_tags(d, dl, wl, relation) + [f"open:{t}" for t in c["open"]]
         return c
 
+    def _as_nonfinite(self, case, flavour):
+        """the data of a case with its first row (d == 1: first entries) replaced by one of the non-finite flavours"""
+        n, d = len(case["data"]), case["d"]
+        rows = copy.deepcopy(case["data"])
+        special = {"both": ["inf", "-inf", "inf"], "pinf": ["inf", 0.0, 0.0], "inf_nan": ["-inf", None, 0.0], "huge": [HUGE, HUGE, -HUGE]}[flavour]
+        if d == 1:
+            for i, v in enumerate(special[:2]):
+                if not (v == 0.0 and flavour == "pinf"):
+                    rows[i] = [v]
+        else:
+            rows[0] = [v if v != 0.0 else rows[0][j] for j, v in enumerate(special[:d])]
+            if flavour == "pinf" and any(v is None for v in rows[0]):
+                rows[0] = ["inf"] * d
+        c = {"kind": "nonfinite", "d": d, "binning": copy.deepcopy(case["binning"]), "data": rows, "weights": [2 ** i for i in range(n)],
+             "wkind": "int64", "names": [f"col{i}" for i in range(d)], "dropna": case["dropna"], "flavour": flavour,
+             "extra": {"sub": case.get("extra", {}).get("sub", [0, 1][:max(1, min(d, 2))]), "chunk": 2, "colchunk": 1},
+             "open": list(case.get("open", []))}
+        c["tags"] = self._nonfinite_tags(c)
+        return c
+
+    def _as_wshape(self, case):
+        n, d = len(case["data"]), case["d"]
+        data = [[None if is_infinite(v) else v for v in r] for r in case["data"]]
+        c = {"kind": "wshape", "d": d, "binning": copy.deepcopy(case["binning"]), "data": data, "rc": list(factor_pair(n) or (1, n)),
+             "ints": False, "weights": [2.0 ** i for i in range(n)], "wkind": "float64", "wcontainer": "array",
+             "names": [f"col{i}" for i in range(d)], "dropna": case["dropna"], "extra": {"chunk": 2}, "open": list(case.get("open", []))}
+        c["tags"] = self._wshape_tags(c)
+        return c
+
     def neighbours(self, case):
-        """the same data under other labels (a 'containers' case: as a labelled one)"""
+        """the same data under other labels (a 'containers' case: as a labelled one), with non-finite entries, with the weights in
+        other shapes"""
+        out = []
+        if case.get("kind") in ("containers", "labelled", "nonfinite") and 2 <= len(case["data"]) <= 40:
+            if ENABLE_NONFINITE:
+                out += [self._as_nonfinite(case, f) for f in ("both", "pinf", "inf_nan", "huge")]
+            if ENABLE_WSHAPE:
+                out.append(self._as_wshape(case))
+        return out + self._neighbours_labelled(case)
+
+    def _neighbours_labelled(self, case):
         if not ENABLE_LABELLED or case.get("kind") not in ("containers", "labelled"):
             return []
         n = len(case["data"])
@@ -1954,6 +2628,43 @@ class C17:
             if case["weights"] is not None:
                 c = copy.deepcopy(case)
                 c["weights"], c["wkind"] = None, None
+                yield c
+            return
+        if case["kind"] == "nonfinite":
+            # fewer rows (each with its weight), no weights
+            n = len(case["data"])
+            for j in range(n):
+                if n <= 2:
+                    break
+                c = copy.deepcopy(case)
+                del c["data"][j]
+                if c["weights"] is not None:
+                    del c["weights"][j]
+                c["extra"]["chunk"] = min(c["extra"]["chunk"], n - 1)
+                c["tags"] = self._nonfinite_tags(c)
+                yield c
+            if case["weights"] is not None:
+                c = copy.deepcopy(case)
+                c["weights"], c["wkind"] = None, None
+                c["tags"] = self._nonfinite_tags(c)
+                yield c
+            return
+        if case["kind"] == "wshape":
+            # d == 1: the table without one of its rows / columns; rows: one row less (each with its weight)
+            n, (r, cc) = len(case["data"]), case["rc"]
+            drops = []
+            if case["d"] == 1:
+                drops += [([i * cc + j for j in range(cc)], [r - 1, cc]) for i in range(r) if r > 1]
+                drops += [([i * cc + j for i in range(r)], [r, cc - 1]) for j in range(cc) if cc > 1]
+            else:
+                drops += [([j], [1, n - 1]) for j in range(n) if n > 1]
+            for gone, rc in drops:
+                c = copy.deepcopy(case)
+                c["data"] = [x for i, x in enumerate(c["data"]) if i not in gone]
+                c["weights"] = [x for i, x in enumerate(c["weights"]) if i not in gone]
+                c["rc"] = rc
+                c["extra"]["chunk"] = max(1, min(c["extra"]["chunk"], len(c["data"])))
+                c["tags"] = self._wshape_tags(c)
                 yield c
             return
         if case["kind"] != "containers":
